@@ -437,6 +437,11 @@ static ASMJIT_FAVOR_SIZE Error validate(InstDB::Mode mode, const BaseInst& inst,
           reg_mask = 0;
         }
 
+        // A memory operand that has a vector index (VSIB) only matches vm32/vm64 operands, never a plain memory operand.
+        if (Support::test(op_flags, InstDB::OpFlags::kVmMask)) {
+          break;
+        }
+
         switch (mem_size) {
           case  0: op_flags |= InstDB::OpFlags::kMemUnspecified; break;
           case  1: op_flags |= InstDB::OpFlags::kMem8; break;
